@@ -22,6 +22,7 @@ type pipe struct {
 	name   string
 	script string // after `stream|from().measurement('m')%G`
 	alert  bool   // also record alert events on topic T<name>
+	rewA   string // the pipeline rewrites group tag a by appending this suffix (attribution of group-tag-only outputs)
 	kf     string // known-finding key expected (documentation only)
 }
 
@@ -34,6 +35,11 @@ var catalogue = []pipe{
 	{name: "evalIfCount", script: `|eval(lambda: if(count() > 1, 1, 0)).as('c').keep('c', 'k')`},
 	{name: "evalNestedSpread", script: `|eval(lambda: abs(spread("x")) + max(count(), 0)).as('c').keep('c', 'k')`},
 	{name: "stateCountNested", script: `|stateCount(lambda: int(count()) > 1)`},
+	{name: "stateCountDelete", script: `|stateCount(lambda: "x" > 1)|delete().tag('a')`},
+	{name: "cumSumDeleteB", script: `|cumulativeSum('x')|delete().tag('b')`},
+	{name: "rewriteTagWindow", script: `|eval(lambda: "a" + 'x').as('a').tags('a').keep('x', 'k')|window().period(2s).every(1s)`, rewA: "x"},
+	{name: "rewriteTagCount", script: `|eval(lambda: "a" + 'x').as('a').tags('a').keep('x', 'k')|window().period(3s).every(2s)|count('x')`, rewA: "x"},
+	{name: "defaultTagWindow", script: `|default().tag('b', 'dflt')|window().periodCount(2).everyCount(1)`},
 	{name: "derivative", script: `|derivative('x').unit(1s)`},
 	{name: "changeDetect", script: `|changeDetect('x')`},
 	{name: "stateCount", script: `|stateCount(lambda: "x" > 1)`},
@@ -59,9 +65,21 @@ type in struct {
 	grp int
 	x   int
 	t   int
+	i   int // position within its own series (set by number())
+}
+
+// number sets the per-series positions.
+func number(prog [2][]in) [2][]in {
+	for g := 0; g < 2; g++ {
+		for i := range prog[g] {
+			prog[g][i].i = i
+		}
+	}
+	return prog
 }
 
 type grouping struct {
+	alt    []map[string]string // extra tags of group 1 that alternate per point (the "group" is then several groups of one series)
 	name   string
 	clause string              // groupBy clause appended to from()
 	tags   [2]map[string]string // the two groups' tags
@@ -77,6 +95,9 @@ var groupings = []grouping{
 	{name: "space", clause: `.groupBy('a')`, tags: [2]map[string]string{{"a": "g h"}, {"a": "g"}}, meas: [2]string{"m", "m"}},
 	{name: "backslash", clause: `.groupBy('a', 'b')`, tags: [2]map[string]string{{"a": `x\z`, "b": "y"}, {"a": "x", "b": `z\y`}}, meas: [2]string{"m", "m"}},
 	{name: "extraTag", clause: `.groupBy('a')`, tags: [2]map[string]string{{"a": "g"}, {"a": "h"}}, meas: [2]string{"m", "m"}, extra: true},
+	{name: "twoDims", clause: `.groupBy('a', 'b')`, tags: [2]map[string]string{{"a": "x", "b": "1"}, {"a": "y", "b": "1"}}, meas: [2]string{"m", "m"}},
+	{name: "starExclude", clause: `|groupBy(*).exclude('c', 'who', 'z')`, tags: [2]map[string]string{{"a": "x", "c": "1"}, {"a": "x"}}, meas: [2]string{"m", "m"},
+		alt: []map[string]string{{"p": "1"}, {"p": "2"}}},
 	{name: "byMeasurement", clause: `.groupBy('a').groupByMeasurement()`, tags: [2]map[string]string{{"a": "g"}, {"a": "g"}}, meas: [2]string{"m", "n"}},
 }
 
@@ -86,8 +107,15 @@ func mkPoint(g grouping, p in, k int) imodels.Point {
 		tags[a] = b
 	}
 	if g.extra {
-		tags["z"] = fmt.Sprint(k % 2)
+		tags["z"] = fmt.Sprint(p.i % 2)
 	}
+	if p.grp == 1 && len(g.alt) > 0 {
+		for a, b := range g.alt[p.i%len(g.alt)] {
+			tags[a] = b
+		}
+	}
+	// attribution tag: which of the two input series a point belongs to (never rewritten by the pipelines)
+	tags["who"] = fmt.Sprintf("s%d", p.grp)
 	return rt.MustPoint(g.meas[p.grp], tags, map[string]any{"x": int64(p.x), "k": int64(k)}, rt.DefaultTime.T(p.t))
 }
 
@@ -113,21 +141,31 @@ func runOnce(env *rt.Env, pp pipe, g grouping, ins []in, ks []int, topic string)
 	if err != nil {
 		return out, fmt.Errorf("%s: %w\n%s", pp.name, err, script)
 	}
-	// which group does an output belong to: by its group-by tag values / measurement
+	// which input series does an output belong to: tag who (on the message, else on its first point)
 	groupOf := func(name string, tags map[string]string) int {
+		switch tags["who"] {
+		case "s0":
+			return 0
+		case "s1":
+			return 1
+		}
+		// messages that carry group tags only (streaming aggregations): by the group-by tag values / measurement
+		if _, has := tags["p"]; has {
+			return 1 // only series 1 of the starExclude grouping has tag p
+		}
 		for gi := 0; gi < 2; gi++ {
-			if name != g.meas[gi] {
+			if name != "" && name != g.meas[gi] {
 				continue
 			}
-			ok := true
-			for a, b := range g.tags[gi] {
-				if tags[a] != b {
+			ok := len(tags) > 0 || len(g.tags[gi]) == 0
+			for a, b := range tags {
+				if want, has := g.tags[gi][a]; has && a == "a" && pp.rewA != "" {
+					if want+pp.rewA != b {
+						ok = false
+					}
+				} else if has && want != b {
 					ok = false
-				}
-			}
-			// exact tag-name set matters for groupBy(*)
-			for a := range tags {
-				if _, has := g.tags[gi][a]; !has && a != "z" && a != "l" {
+				} else if !has && a != "z" && a != "l" && a != "p" {
 					ok = false
 				}
 			}
@@ -146,6 +184,23 @@ func runOnce(env *rt.Env, pp pipe, g grouping, ins []in, ks []int, topic string)
 		} else {
 			m = rt.EncBatch(it.Batch, rt.DefaultTime, 1000)
 			gi = groupOf(it.Batch.Name(), it.Batch.Tags())
+			if gi < 0 && len(it.Batch.Points()) > 0 {
+				gi = groupOf(it.Batch.Name(), it.Batch.Points()[0].Tags())
+			}
+			// a batch is identified by its tag values: on every dimension its tags must agree with its points'
+			for _, d := range it.Batch.Dimensions().TagNames {
+				for _, bp := range it.Batch.Points() {
+					if v, ok := bp.Tags()[d]; ok && v != it.Batch.Tags()[d] {
+						m["inconsistent"] = true
+					}
+				}
+			}
+			// all points of one batch belong to one input series
+			for _, bp := range it.Batch.Points() {
+				if w := groupOf("", bp.Tags()); w >= 0 && gi >= 0 && w != gi {
+					m["inconsistent"] = true
+				}
+			}
 		}
 		delete(m, "group") // the ID string itself is checked by GroupIdInjective; outputs are attributed by tag values
 		stripZ(m)
@@ -241,8 +296,8 @@ func Run(r *rt.Run) error {
 	t := r.NewTrace("trace")
 	// value/time programs per group: chosen so that every stateful node changes state
 	progs := [][2][]in{
-		{{{0, 1, 1}, {0, 3, 2}, {0, 3, 3}, {0, 0, 5}}, {{1, 3, 1}, {1, 0, 2}, {1, 2, 4}, {1, 3, 5}}},
-		{{{0, 2, 1}, {0, 2, 1}, {0, 4, 3}}, {{1, 1, 2}, {1, 5, 2}, {1, 0, 3}, {1, 3, 6}}},
+		{{{0, 1, 1, 0}, {0, 3, 2, 0}, {0, 3, 3, 0}, {0, 0, 5, 0}}, {{1, 3, 1, 0}, {1, 0, 2, 0}, {1, 2, 4, 0}, {1, 3, 5, 0}}},
+		{{{0, 2, 1, 0}, {0, 2, 1, 0}, {0, 4, 3, 0}}, {{1, 1, 2, 0}, {1, 5, 2, 0}, {1, 0, 3, 0}, {1, 3, 6, 0}}},
 	}
 	nRand := 2
 	mergeLimit := 6
@@ -255,7 +310,7 @@ func Run(r *rt.Run) error {
 			tm := 0
 			for k := 2 + r.Rand.Intn(4); k > 0; k-- {
 				tm += r.Rand.Intn(3)
-				p[g] = append(p[g], in{g, r.Rand.Intn(5), tm})
+				p[g] = append(p[g], in{g, r.Rand.Intn(5), tm, 0})
 			}
 		}
 		progs = append(progs, p)
@@ -264,6 +319,7 @@ func Run(r *rt.Run) error {
 	for _, pp := range catalogue {
 		for _, g := range groupings {
 			for pi, prog := range progs {
+				prog = number(prog)
 				topicNo++
 				topic := fmt.Sprintf("T%d", topicNo)
 				t.Reset(rt.M{"pipeline": pp.name, "grouping": g.name})
